@@ -85,7 +85,8 @@ def gen_script(r, phones, groups, latecomer=None):
     for i in range(n):
         c = r.random()
         if c < 0.08 and restarts < 2:
-            script.append({"op": "restart", "who": r.choice(phones)})
+            # (one restart in four finds the key store locked by another process at first and has to be repeated)
+            script.append({"op": "restart", "who": r.choice(phones), "busy": r.random() < 0.25})
             restarts += 1
             continue
         sender = r.choice(phones)
